@@ -95,7 +95,20 @@ def _services():
         text = it.call(it.getattr(sio, "getvalue"), [])
         # the declarations are written in the iteration order of a set of symbols: compared as a multiset of lines
         return tuple(sorted(text.split("\n"))) if isinstance(text, str) else text
+    def size_m(mname):
+        return lambda w, it, f: it.call(it.getattr(f, "size"), [it.getattr(it.getattr(w.env, "sizeo"), mname)])
+
+    def simplify_twice(w, it, f):
+        """simplify applied to its own result: compared with a fresh Simplifier instance on that result"""
+        r1 = it.call(it.getattr(f, "simplify"), [])
+        r2 = it.call(it.getattr(r1, "simplify"), [])
+        fresh = w.new_walker("pysmt.simplifier.Simplifier", w.env)
+        r2f = it.call(it.getattr(fresh, "simplify"), [r1])
+        return ("own result", r2 is r2f, ac_sig(w, r2), ac_sig(w, r2f))
     return {
+        "size (depth)": (size_m("MEASURE_DEPTH"), False), "size (leaves)": (size_m("MEASURE_LEAVES"), False),
+        "size (dag nodes)": (size_m("MEASURE_DAG_NODES"), False), "size (symbols)": (size_m("MEASURE_SYMBOLS"), False),
+        "simplify of a simplified term": (simplify_twice, False),
         "serialize": (meth("serialize"), False), "to_smtlib": (smt_text, False), "smt-lib script": (smt_script, False),
         "simplify": (meth("simplify"), False), "substitute": (sub, False), "get_type": (meth("get_type"), False),
         "free variables": (meth("get_free_variables"), False), "atoms": (meth("get_atoms"), False),
@@ -111,39 +124,39 @@ def _history_shapes():
     lt = ("LT", ("Plus", x, y), z)
     o = ("Or", a, lt)
     kw1, kw2 = S("let"), S("push")           # names both concrete syntaxes have to quote, each in its own way
-    targets = [("And", kw1, ("Or", kw2, a)), ("And", o, ("Not", ("And", b, o))), ("Implies", ("Iff", a, b), ("Ite", c, lt, ("Not", lt))),
+    targets = [("And", kw1, ("Or", kw2, a)), ("LE", ("Minus", ("Plus", ("lit", 5, INT), ("lit", 3, INT)), x), ("lit", 10, INT)),
+               ("LT", ("Plus", ("Minus", ("lit", 5, INT), x), ("lit", 3, INT)), y), ("And", o, ("Not", ("And", b, o))), ("Implies", ("Iff", a, b), ("Ite", c, lt, ("Not", lt))),
                ("forall", [("a", BOOL)], ("Or", a, ("And", b, lt))), ("Equals", ("Times", ("lit", 2, INT), ("Plus", x, y)), ("Minus", z, x))]
-    history = [("Or", kw1, ("Not", kw2)), o, ("And", b, o), ("Not", lt), ("Plus", x, y), ("Iff", a, b), ("Or", ("And", b, lt), c),
+    five, three_ = ("lit", 5, INT), ("lit", 3, INT)
+    history = [("Or", kw1, ("Not", kw2)), ("Plus", ("Minus", five, x), three_), ("Plus", ("Minus", ("Plus", x, y), z), ("lit", 1, INT)),
+               o, ("And", b, o), ("Not", lt), ("Plus", x, y), ("Iff", a, b), ("Or", ("And", b, lt), c),
                ("exists", [("b", BOOL)], ("And", b, lt)), ("LE", ("Plus", x, y), ("lit", 0, INT)), ("And", a, ("Not", a))]
     return targets, history
 
 
 def _hist_job(job):
-    svc, ti = job
+    """One target, a group of services: the history is interpreted once, then every service of the group is asked
+    (twice) in that environment; each answer is compared with the answer in a fresh environment."""
+    ti, svcs = job
     targets, history = _history_shapes()
     shape = Shape(targets[ti])
-    fn, fresh_syms = _services()[svc]
+    table = _services()
 
-    def apply(w, it, f):
+    def apply(fn, w, it, f):
         try:
             return ("ret", fn(w, it, f))
         except AbsRaise as ex:
             return ("raise", ex.cls_name)
 
-    def call_fresh(w, it, f):
-        r = apply(w, it, f)
-        return (r[0], ac_sig(w, r[1]) if r[0] == "ret" else r[1])
-
     def call_hist(w, it, f):
-        from ..absint import ExtRef
         for ht in history:
             h = proc.build_shape(w, ht)
-            for nm in ("serialize", "to_smtlib", "simplify", "substitute", "get_type", "free variables", "atoms", "size", "get_logic",
-                       "nnf", "aig"):
+            for nm in ("serialize", "to_smtlib", "simplify", "substitute", "get_type", "free variables", "atoms", "size (depth)", "size",
+                       "size (leaves)", "size (symbols)", "get_logic", "nnf", "aig"):
                 if w.nsort(h) != ("BOOL",) and nm in ("nnf", "aig", "atoms"):
                     continue
                 try:
-                    _services()[nm][0](w, it, h)
+                    table[nm][0](w, it, h)
                 except AbsRaise:
                     pass
         # another map for the substituter, a failing construction, many unrelated nodes
@@ -154,28 +167,45 @@ def _hist_job(job):
             pass
         for i in range(12):
             w.app("Or", w.symbol("u%d" % i, ("BOOL",)), w.symbol("a", ("BOOL",)))
-        r1 = apply(w, it, f)
-        r2 = apply(w, it, f)
-        same = r1[0] == "ret" and r2[0] == "ret" and (r1[1] is r2[1] or (not w.is_node(r1[1]) and ac_sig(w, r1[1]) == ac_sig(w, r2[1])))
-        return (r1[0], ac_sig(w, r1[1]) if r1[0] == "ret" else r1[1], same)
+        out = {}
+        for svc in svcs:
+            fn = table[svc][0]
+            r1 = apply(fn, w, it, f)
+            r2 = apply(fn, w, it, f)
+            same = r1[0] == "ret" and r2[0] == "ret" and (r1[1] is r2[1] or (not w.is_node(r1[1]) and ac_sig(w, r1[1]) == ac_sig(w, r2[1])))
+            out[svc] = (r1[0], ac_sig(w, r1[1]) if r1[0] == "ret" else r1[1], same)
+        return out
 
-    pf = proc.run_proc(shape, call_fresh, post=lambda w, f, v, facts: proc.ProcResult(shape, "valid", v), services="full", max_paths=8)
     ph = proc.run_proc(shape, call_hist, post=lambda w, f, v, facts: proc.ProcResult(shape, "valid", v), services="full", max_paths=8,
-                       interp_kwargs={"max_steps": 8000000})
-    if len(pf) != 1 or pf[0].kind != "valid" or len(ph) != 1 or ph[0].kind != "valid":
-        bad = [r for r in pf + ph if r.kind != "valid"]
-        return (svc, repr(shape), "unsupported", "%s %s" % (bad[0].kind, str(bad[0].detail)[:200]) if bad else "several paths")
-    a_, b_ = pf[0].detail, ph[0].detail
-    if a_[0] != b_[0]:
-        return (svc, repr(shape), "invalid", "fresh environment: %s; after other work: %s" % (a_[0], b_[0]))
-    if a_[0] == "raise":
-        return (svc, repr(shape), "valid" if a_[1] == b_[1] else "invalid", "raises %s / %s" % (a_[1], b_[1]))
-    if a_[1] != b_[1]:
-        return (svc, repr(shape), "invalid", "the result differs from the one in a fresh environment: %s vs %s"
-                % (str(b_[1])[:160], str(a_[1])[:160]))
-    if not fresh_syms and not b_[2]:
-        return (svc, repr(shape), "invalid", "repeating the call returns a different object")
-    return (svc, repr(shape), "valid", "same as in a fresh environment; repeatable")
+                       interp_kwargs={"max_steps": 12000000})
+    results = []
+    if len(ph) != 1 or ph[0].kind != "valid":
+        why = "%s %s" % (ph[0].kind, str(ph[0].detail)[:200])
+        return [(svc, repr(shape), "unsupported", why) for svc in svcs]
+    hist = ph[0].detail
+    for svc in svcs:
+        fn, fresh_syms = table[svc]
+
+        def call_fresh(w, it, f, fn=fn):
+            r = apply(fn, w, it, f)
+            return (r[0], ac_sig(w, r[1]) if r[0] == "ret" else r[1])
+        pf = proc.run_proc(shape, call_fresh, post=lambda w, f, v, facts: proc.ProcResult(shape, "valid", v), services="full", max_paths=8)
+        if len(pf) != 1 or pf[0].kind != "valid":
+            results.append((svc, repr(shape), "unsupported", "%s %s" % (pf[0].kind, str(pf[0].detail)[:200])))
+            continue
+        a_, b_ = pf[0].detail, hist[svc]
+        if a_[0] != b_[0]:
+            results.append((svc, repr(shape), "invalid", "fresh environment: %s; after other work: %s" % (a_[0], b_[0])))
+        elif a_[0] == "raise":
+            results.append((svc, repr(shape), "valid" if a_[1] == b_[1] else "invalid", "raises %s / %s" % (a_[1], b_[1])))
+        elif a_[1] != b_[1]:
+            results.append((svc, repr(shape), "invalid", "the result differs from the one in a fresh environment: %s vs %s"
+                            % (str(b_[1])[:160], str(a_[1])[:160])))
+        elif not fresh_syms and not b_[2]:
+            results.append((svc, repr(shape), "invalid", "repeating the call returns a different object"))
+        else:
+            results.append((svc, repr(shape), "valid", "same as in a fresh environment; repeatable"))
+    return results
 
 
 def run_history(ctx):
@@ -183,8 +213,11 @@ def run_history(ctx):
         return
     rs = ctx.rule("R7", "services of an environment answer as in a fresh environment after other formulas were built, queried and transformed")
     targets, _h = _history_shapes()
-    jobs = [(svc, ti) for svc in _services() for ti in range(len(targets))]
-    for svc, shape, kind, detail in parallel_map(_hist_job, jobs):
+    names = sorted(_services())
+    groups = [names[0::3], names[1::3], names[2::3]]
+    jobs = [(ti, g) for ti in range(len(targets)) for g in groups]
+    flat = [r for rs_ in parallel_map(_hist_job, jobs) for r in rs_]
+    for svc, shape, kind, detail in flat:
         if kind == "valid":
             rs.ok({"service": svc, "skeleton": shape, "result": detail})
         elif kind == "invalid":
